@@ -5,6 +5,7 @@ import (
 	"go/constant"
 	"go/token"
 	"go/types"
+	"sort"
 	"strings"
 
 	"verifchk/internal/load"
@@ -396,6 +397,9 @@ func Atoms(b *ssa.BasicBlock) []Atom {
 	return out
 }
 
+// CondAtoms decomposes one branch condition known to have value val into atoms.
+func CondAtoms(v ssa.Value, val bool) []Atom { return condAtoms(v, val) }
+
 func condAtoms(v ssa.Value, val bool) []Atom {
 	switch x := v.(type) {
 	case *ssa.Phi:
@@ -662,10 +666,32 @@ type Site struct {
 // pred (static callees and interface invokes).
 func (c *Ctx) SitesOf(pred func(name string) bool) []Site {
 	var out []Site
+	names := map[string]bool{}
 	for _, f := range c.ModuleFuncs() {
 		for _, ci := range Calls(f, func(n string, _ ssa.CallInstruction) bool { return pred(n) }) {
 			out = append(out, Site{f, ci})
+			names[CalleeName(ci.Common())] = true
 			c.CallSites++
+		}
+	}
+	if c.Thorough() && c.curRule != "" {
+		// who-may-call closure: no call through a function value / bound method / other interface
+		// may reach the protected callee behind the rule's back
+		routes := c.DynRoutes(pred)
+		for _, r := range routes {
+			c.CallSites++
+			c.Ob("dynamic-call|"+short(r.Callee.String())+"|"+c.RelName(OutermostParent(r.Fn)), r.Call.Pos(), false,
+				"%s can be invoked from here through a function value or interface (VTA call graph); the rule only checks statically resolved call sites, so this call is undecided", short(r.Callee.String()))
+		}
+		if len(routes) == 0 {
+			var ns []string
+			for n := range names {
+				ns = append(ns, n)
+			}
+			sort.Strings(ns)
+			for _, n := range ns {
+				c.Ob("no-dynamic-route|"+n, token.NoPos, true, "VTA call graph: no call through a function value or interface reaches %s from module code; the statically resolved sites are all its callers", n)
+			}
 		}
 	}
 	return out
@@ -1293,4 +1319,66 @@ func ReachableAssuming(fn *ssa.Function, v ssa.Value, k constant.Value, target s
 		return false
 	}
 	return walk(fn.Blocks[0])
+}
+
+// DerivesFrom reports whether target is among the values root is computed from, walking backwards
+// through phis, conversions, interface boxing, loads of local cells (reaching stores), extracts of
+// the same tuple, and the arguments of calls (a wrapped error derives from the error it wraps).
+func DerivesFrom(root, target ssa.Value) bool {
+	seen := map[ssa.Value]bool{}
+	var walk func(v ssa.Value) bool
+	walk = func(v ssa.Value) bool {
+		if v == nil || seen[v] {
+			return false
+		}
+		seen[v] = true
+		if v == target {
+			return true
+		}
+		switch x := v.(type) {
+		case *ssa.Phi:
+			for _, e := range x.Edges {
+				if walk(e) {
+					return true
+				}
+			}
+		case *ssa.MakeInterface:
+			return walk(x.X)
+		case *ssa.ChangeType:
+			return walk(x.X)
+		case *ssa.ChangeInterface:
+			return walk(x.X)
+		case *ssa.Convert:
+			return walk(x.X)
+		case *ssa.TypeAssert:
+			return walk(x.X)
+		case *ssa.Extract:
+			if te, ok := target.(*ssa.Extract); ok && te.Tuple == x.Tuple && te.Index == x.Index {
+				return true
+			}
+			return walk(x.Tuple)
+		case *ssa.Call:
+			for _, a := range Args(&x.Call) {
+				if walk(a) {
+					return true
+				}
+			}
+		case *ssa.UnOp:
+			if x.Op == token.MUL {
+				if _, ok := x.X.(*ssa.Alloc); ok {
+					for _, st := range ReachingStores(x) {
+						if walk(st.Val) {
+							return true
+						}
+					}
+					return false
+				}
+				return walk(x.X) // copy of the object a derived pointer points to
+			}
+		case *ssa.FieldAddr:
+			return walk(x.X)
+		}
+		return false
+	}
+	return walk(root)
 }
